@@ -76,7 +76,17 @@ def loader_case(c):
     bs = c['bs']
     dl = DataLoader(ds, batch_size=bs)
     L = len(dl)
-    dpl = DPDataLoader.from_data_loader(dl, generator=torch.Generator().manual_seed(c['seed']))
+    if c.get('W'):
+        import torch.distributed as dist
+        og, ow = dist.get_rank, dist.get_world_size
+        dist.get_rank = lambda: c['rank']
+        dist.get_world_size = lambda: c['W']
+        try:
+            dpl = DPDataLoader.from_data_loader(dl, distributed=True, generator=torch.Generator().manual_seed(c['seed']))
+        finally:
+            dist.get_rank, dist.get_world_size = og, ow
+    else:
+        dpl = DPDataLoader.from_data_loader(dl, generator=torch.Generator().manual_seed(c['seed']))
     out = {'L': L, 'len_dp': len(dpl), 'rate': dpl.sample_rate, 'epochs': []}
     first = ds[0]
     for ep in range(2):
@@ -97,7 +107,7 @@ def loader_case(c):
         out['epochs'].append({'batches': nb, 'empties': empties, 'bad': bad})
     # the engine's view
     model = nn.Linear(5, 2)
-    if c['kind'] == 'single':
+    if c['kind'] == 'single' and not c.get('W'):
         pe = PrivacyEngine(accountant='rdp')
         m, o, d = pe.make_private(module=model, optimizer=torch.optim.SGD(model.parameters(), lr=0.1), data_loader=dl,
                                   noise_multiplier=1.0, max_grad_norm=1.0)
